@@ -176,3 +176,95 @@ def standard_cases(rng, count, maxdeg=20, classes=None):
         i += 1
         if i > count * 50: break
     return out
+
+
+# ----------------------------------------------------------------------------- C01: tight / boundary families
+def c01_targeted_cases(rng, count=None, maxdeg=12, big=False):
+    """Families aimed at the case splits of the inclusion-radius code (DESIGN C01 'Search'):
+    (x-a)^n and (x-a)^n - eps (Newton factor n is sharp), roots at 1 +- 2^-k, coincident starting
+    approximations, degree 1, leading/trailing zero coefficients, huge coefficient ratios (float/DPE
+    switch), dyadic floating-point coefficients, secular equations with close nodes / tiny weights.
+    Deterministic for a given rng.  `count`: keep only that many (random subset, order kept)."""
+    out = []
+    Z = (Fr(0), Fr(0)); ONE = (Fr(1), Fr(0))
+    def powlin(a, n):                      # (x - a)^n
+        return S.poly_from_roots([a] * n)
+    # (x-a)^n : one root of multiplicity n
+    for n in ([2, 3, 5] + ([8, 12] if big else [])):
+        a = rand_dyadic_root(rng, 3, rng.choice([0, 2]), rng.random() < 0.4)
+        if a == (0, 0): a = (Fr(1), Fr(0))
+        out.append(mono_case("powlin%d" % n, "(x-a)^n", powlin(a, n), rng, simple=False, roots=[a] * n, kind="Rational"))
+    # (x-a)^n - eps : n simple roots on a circle of radius eps^(1/n)
+    for n in ([2, 3, 4, 6] + ([10, 16] if big else [])):
+        k = rng.choice([10, 20, 40, 80] + ([200] if big else []))
+        a = (Fr(rng.randint(-3, 3) or 1, rng.choice([1, 2, 4])), Fr(0))
+        c = powlin(a, n); c[0] = (c[0][0] - Fr(1, 1 << k), c[0][1])
+        out.append(mono_case("powlin%d_eps%d" % (n, k), "(x-a)^n-2^-k", c, rng, simple=True, kind="Rational"))
+    # roots at 1 +- 2^-k (and a few others)
+    for k in ([4, 12, 26, 40] + ([52, 60, 100] if big else [])):
+        e = Fr(1, 1 << k)
+        rs = [(1 + e, Fr(0)), (1 - e, Fr(0))] + [rand_dyadic_root(rng, 3, 2) for _ in range(rng.randint(0, 3))]
+        rs = list(dict.fromkeys(rs))
+        out.append(from_roots_case("near1_%d" % k, "roots-1+-2^-k", rs, rng, kind="Rational"))
+    # polynomials whose default starting approximations coincide with / are symmetric around the roots
+    out.append(mono_case("sym_x4_2x2_1", "coincident", [1, 0, 2, 0, 1], rng, simple=False))             # (x^2+1)^2
+    out.append(mono_case("sym_x6_m1sq", "coincident", S.poly_mul([_c(-1), Z, Z, ONE], [_c(-1), Z, Z, ONE]), rng, simple=False))
+    n = rng.randint(3, maxdeg)
+    out.append(mono_case("binom%d" % n, "coincident", [(-(1 << n), 0)] + [(0, 0)] * (n - 1) + [(1, 0)], rng, simple=True))
+    out.append(mono_case("allones%d" % n, "coincident", [(1, 0)] * (n + 1), rng, simple=True))
+    # degree 1 (integer, rational, complex, huge, tiny)
+    out.append(mono_case("deg1_a", "degree-1", [(Fr(-7), Fr(0)), (Fr(3), Fr(0))], rng))
+    out.append(mono_case("deg1_c", "degree-1", [(Fr(2), Fr(-5)), (Fr(1), Fr(1))], rng))
+    out.append(mono_case("deg1_huge", "degree-1", [(Fr(1 << 900), Fr(0)), (Fr(3), Fr(0))], rng))
+    out.append(mono_case("deg1_tiny", "degree-1", [(Fr(1, 1 << 900), Fr(0)), (Fr(3), Fr(0))], rng, kind="Rational"))
+    # trailing zero coefficients (zero roots), dense and sparse; leading zero coefficient
+    for k in (1, 3):
+        c = rand_int_poly(rng, rng.randint(1, 6), 5)
+        out.append(mono_case("trail0_%d" % k, "zero-roots", [Z] * k + c, rng, sparse=(k == 3)))
+    out.append(mono_case("only_zero_roots", "zero-roots", [Z, Z, Z, ONE], rng))
+    c = rand_int_poly(rng, rng.randint(2, 6), 5)
+    lz = mono_case("lead0", "leading-zero", c + [Z], rng, sparse=False)
+    out.append(lz)
+    # float/DPE switch: huge coefficient ratios
+    for (nm, c) in [("ratio_a", [(-Fr(1, 1 << 1100), 0), (1, 0), (0, 0), (Fr(1 << 1100), 0)]),
+                    ("ratio_b", [(Fr(1 << 1030), 0), (Fr(-3), 0), (Fr(1, 1 << 1030), 0)]),
+                    ("ratio_c", [(-(1 << 2000), 0)] + [(0, 0)] * 3 + [(1, 0)]),
+                    ("ratio_d", [(Fr(1), 0), (Fr(1 << 600), 0), (Fr(5), 0), (Fr(1, 1 << 600), 0), (Fr(-2), 0)]),
+                    ("ratio_e", [(Fr(3, 1 << 1070), 0), (Fr(-1, 1 << 500), 0), (Fr(7), 0)])]:
+        out.append(mono_case(nm, "huge-ratio", [_c(x) if not isinstance(x, tuple) else (Fr(x[0]), Fr(x[1])) for x in c], rng, kind="Rational"))
+    # dyadic floating-point coefficients (exactly representable: the equation solved is the one written)
+    for j in range(3 if not big else 8):
+        d = rng.randint(2, maxdeg)
+        c = [(Fr(rng.randint(-4096, 4096), 1 << rng.randint(0, 10)) * Fr(2) ** rng.choice([0, 0, 3, -7]), Fr(0)) for _ in range(d + 1)]
+        if c[-1][0] == 0: c[-1] = ONE
+        if c[0][0] == 0: c[0] = ONE
+        out.append(mono_case("dyfloat%d" % j, "dyadic-float", c, rng, kind="FloatingPoint"))
+    # secular equations: close nodes, tiny / large weights
+    def sec_case(name, sec):
+        def q(x): return "%d/%d" % (x.numerator, x.denominator)
+        cplx = any(a[1] != 0 or b[1] != 0 for a, b in sec)
+        lines = ["Secular;", "Degree=%d;" % len(sec), "Rational;", "Complex;" if cplx else "Real;", ""]
+        for a, b in sec:
+            lines.append(("%s %s %s %s" % (q(a[0]), q(a[1]), q(b[0]), q(b[1]))) if cplx else ("%s %s" % (q(a[0]), q(b[0]))))
+        cc = _case(name, "secular", "\n".join(lines) + "\n", S.secular_to_monomial(sec), None, None)
+        cc["sec"] = sec
+        return cc
+    k = rng.choice([10, 20, 30])
+    out.append(sec_case("sec_close_nodes", [((Fr(1), Fr(0)), (Fr(1), Fr(0))), ((Fr(-2), Fr(0)), (1 + Fr(1, 1 << k), Fr(0))), ((Fr(3), Fr(0)), (Fr(-2), Fr(0)))]))
+    out.append(sec_case("sec_tiny_weights", [((Fr(1, 1 << 40), Fr(0)), (Fr(j), Fr(0))) for j in range(1, 5)]))
+    out.append(sec_case("sec_big_weights", [((Fr((-1) ** j * (1 << 30)), Fr(0)), (Fr(j, 3), Fr(0))) for j in range(1, 6)]))
+    out.append(sec_case("sec_cplx", [((Fr(rng.randint(1, 9)), Fr(rng.randint(-9, 9))), (Fr(rng.randint(-9, 9)), Fr(j))) for j in range(4)]))
+    # secular form of a random complex integer polynomial (the family on which C19 met radii that are too small)
+    for j in range(2 if not big else 6):
+        d = rng.randint(2, min(maxdeg, 6))
+        p = rand_int_poly(rng, d, 8, True)
+        monic = [S.cdiv(a, p[-1]) for a in p]
+        nodes = []
+        while len(nodes) < d:
+            b = (Fr(rng.randint(-30, 30), rng.randint(1, 4)), Fr(rng.randint(-30, 30), rng.randint(1, 4)))
+            if b not in nodes and not S.cis0(S.poly_eval(monic, b)): nodes.append(b)
+        out.append(sec_case("secform%d" % j, S.monomial_to_secular(monic, nodes)))
+    if count is not None and count < len(out):
+        keep = sorted(rng.sample(range(len(out)), count))
+        out = [out[i] for i in keep]
+    return out
